@@ -11,24 +11,24 @@ present &= ready
 TECH = {
  "C01": "Hypothesis-generated images x ops; metamorphic identity-coordinate-image oracle + independent reference sampling map",
  "C02": "Hypothesis-generated shape x transform grid; reference evaluation + deep-digest non-mutation oracle",
- "C03": "Hypothesis-generated ordered class pairs and compose programs; reference homogeneous products, class-honesty predicate table",
- "C04": "Hypothesis-generated invertible transforms; two-sided round trip + differential against a fresh reverse fit",
+ "C03": "Hypothesis-generated ordered class pairs and compose programs; reference homogeneous products, class-honesty predicate table; refused compositions / vectors must leave the receiver intact",
+ "C04": "Hypothesis-generated invertible transforms; two-sided round trip + differential against a fresh reverse fit + numpy solve reference (incl. homographies mixing the homogeneous coordinate)",
  "C05": "Hypothesis-generated Vectorizable objects and vectors; round-trip + deep-digest non-mutation + reference raster layout",
  "C06": "Hypothesis-generated objects and landmark-manager op histories; buffer-aliasing walk + dict model",
  "C07": "Hypothesis-generated source/target sets; reference Kabsch/lstsq optimum, competitor search, interpolation and barycentric references",
  "C08": "Hypothesis-generated set_target histories; differential against fresh constructor with same options",
- "C09": "Hypothesis-generated apply histories with in-place edits and batch sizes; history-free reference evaluation",
+ "C09": "Hypothesis-generated apply histories with in-place edits and batch sizes; aliasing input forms (read-only views, strided / broadcast / frombuffer arrays edited by their owner); history-free reference evaluation",
  "C10": "Hypothesis-generated data with constructed spectra and trim histories; SVD reference + algebraic identities",
  "C11": "exhaustive compositions of n (small n) + Hypothesis-drawn splits; differential incremental vs batch + reference",
  "C12": "exhaustive small graphs + Hypothesis-drawn graphs/data; float64 reference precision assembly",
- "C13": "Hypothesis-generated crops/patches; bit-exact Python-index reference, three-way boundary contract, path equivalence, write-back round trip",
+ "C13": "Hypothesis-generated crops/patches; bit-exact Python-index reference, three-way boundary contract, path equivalence, write-back round trip, re-used argument objects across call sequences (arguments never modified)",
  "C14": "exhaustive small-scope graph enumeration + Hypothesis random graphs; dict-of-sets reference algorithms",
  "C15": "Hypothesis-generated labelled graphs/selections replayed under several PYTHONHASHSEED processes; set-model reference; labeller grid with metamorphic commutation",
- "C16": "Hypothesis-generated objects and export/import histories on a temp dir; round-trip + directory model",
+ "C16": "Hypothesis-generated objects and export/import histories on a temp dir; round-trip against a pristine twin + directory model; repeated exports of one live object never modify it",
  "C17": "Hypothesis-generated meshes/masks/motions; reference masking, geometric metamorphic relations, reference boundary/edge sets",
- "C18": "Hypothesis-generated images x features; array-vs-image differential, digest non-mutation, reference normalisation",
+ "C18": "Hypothesis-generated images x features; array-vs-image differential, digest non-mutation, reference normalisation, independence of results of separate calls (no shared buffers)",
  "C19": "Hypothesis-generated lazy-list programs against a list-of-expression-trees model with an evaluation log",
- "C20": "Hypothesis-generated angles/quaternions/factors/objects; explicit reference matrices (Rodrigues, textbook quaternion), reconstruction round trips",
+ "C20": "Hypothesis-generated angles/quaternions/factors/objects; explicit reference matrices (Rodrigues, textbook quaternion), reconstruction round trips; histories of public changes with derived read-outs compared with a freshly constructed object",
 }
 checks = []
 na = []
